@@ -188,14 +188,16 @@ static std::string run_obj(const RCP<const Basic> &e, const std::string &sx, boo
     }
     stat(has_float ? "roundtrip_float" : "roundtrip_exact");
     bool same = eq(*p, *e15);
-    if (!same && has_float) {
-        // An expression holding an *unevaluated* float operation (e.g. Pow(E, 2.5) left behind by a rewrite)
-        // is re-evaluated by the constructors the parser calls: compare with the re-constructed expression.
+    if (!same) {
+        // An expression that is not a fixpoint of its own constructors -- an *unevaluated* float operation such as
+        // Pow(E, 2.5), or a factor (y**-1)**(1/3) that pow() itself would rewrite to y**(-1/3), left behind by a
+        // rewrite inside the library (canonical-form business of C03/C04) -- is necessarily rebuilt differently by
+        // the constructors the parser calls: compare with the re-constructed expression.
         try {
             RCP<const Basic> c15 = canon(e15);
             if (!eq(*c15, *e15) && eq(*p, *c15)) {
-                same = true;
-                stat("roundtrip_float_input_not_a_constructor_fixpoint");
+                stat(has_float ? "roundtrip_float_input_not_a_constructor_fixpoint"
+                               : "roundtrip_input_not_a_constructor_fixpoint");
                 return s;
             }
         } catch (const std::exception &) {
